@@ -4,7 +4,7 @@ from __future__ import annotations
 
 import ast
 
-from ..absint import App, Const, Sym
+from ..absint import App, ClassV, Const, DictV, ExcV, ListV, Sym
 from ..flow import FlowPolicy, exits, run_flow
 from ..repo import AnalysisError, body_walk, call_name, dotted, enclosing_unit, norm, parent, short
 
@@ -113,15 +113,11 @@ def _guarded_by_not_in(node, reg):
     return False
 
 
-def run(ctx):
-    program = ctx.program
+def registries_emptied(ctx, program, rid, only=None):
+    """run_coro abstractly interpreted with cancellation at every await: the ending task leaves every task-keyed registry on every exit."""
     fn = program.func(RUN_CORO)
-    regs = task_registries(program)
-    if len(regs) < 4:
-        raise AnalysisError(f"expected >= 4 task-keyed registries in Function, found {sorted(regs)}")
-
-    # R14.1 every registry is emptied for the task on every exit of run_coro ------------------------------------
-    ctx.rule("R14.1", "run_coro removes the ending task from every task-keyed registry on every exit (return, exception, cancellation at any await)", floor=4)
+    all_regs = task_registries(program)
+    regs = all_regs
     ev = {}
     for reg, kind in regs.items():
         ev[f"cls.{reg}.pop"] = reg
@@ -151,13 +147,13 @@ def run(ctx):
                 missing.setdefault(reg, []).append(desc)
     if n == 0:
         raise AnalysisError("run_coro: no exit after task registration found")
-    for reg in regs:
+    for reg in (r for r in regs if only is None or r in only):
         if reg in missing:
-            ctx.fail("R14.1", RUN_CORO, f"{reg} emptied on every exit",
+            ctx.fail(rid, RUN_CORO, f"{reg} emptied on every exit",
                      f"run_coro: the ending task stays in Function.{reg} on {len(missing[reg])} exit path(s), e.g. [{sorted(missing[reg])[0]}]",
                      node=fn, rel="function.py", detail={"exits": sorted(set(missing[reg]))[:6]})
         else:
-            ctx.ok("R14.1", RUN_CORO, f"{reg} emptied on every exit ({n} exits after registration)")
+            ctx.ok(rid, RUN_CORO, f"{reg} emptied on every exit ({n} exits after registration)")
     # inverse map of the unique names
     fin = [t for t in body_walk(fn) if isinstance(t, ast.Try) and t.finalbody]
     inv_ok = False
@@ -166,9 +162,20 @@ def run(ctx):
             for m in ast.walk(s):
                 if isinstance(m, ast.Delete) and any(isinstance(x, ast.Subscript) and _registry_of(x.value) == "unique_name2task" for x in m.targets):
                     inv_ok = True
-    ctx.check(inv_ok, "R14.1", RUN_CORO, "inverse map unique_name2task released in the finally clause",
+    ctx.check(inv_ok, rid, RUN_CORO, "inverse map unique_name2task released in the finally clause",
               msg="run_coro: the finally clause no longer deletes the ending task's names from unique_name2task", key="unique_name2task released",
               node=fn, rel="function.py")
+
+
+def run(ctx):
+    program = ctx.program
+    fn = program.func(RUN_CORO)
+    regs = task_registries(program)
+    if len(regs) < 4:
+        raise AnalysisError(f"expected >= 4 task-keyed registries in Function, found {sorted(regs)}")
+
+    ctx.rule("R14.1", "run_coro removes the ending task from every task-keyed registry on every exit (return, exception, cancellation at any await)", floor=4)
+    registries_emptied(ctx, program, "R14.1")
 
     # R14.3 all done-callbacks attempted ---------------------------------------------------------------------------
     ctx.rule("R14.3", "the done-callback loop continues after a failing callback and cannot skip the cleanup", floor=1)
@@ -223,6 +230,9 @@ def run(ctx):
                           f"skips the unique-name/context/callback cleanup", key=f"raw task creation {d}", node=n, rel=u.rel)
 
     # R14.4 task.executor --------------------------------------------------------------------------------------------
+    ctx.rule("R14.6", "task.cancel hands a task to the reaper only when its wrapper has registered it (a task cancelled before its first step never runs its cleanup)", floor=8)
+    cancel_table(ctx, program, "R14.6")
+
     ctx.rule("R14.4", "task.executor rejects coroutine functions and pyscript functions and runs the callable in the executor", floor=3)
     uid = "trigger.py::TrigTime.user_task_executor"
     f = program.func(uid)
@@ -267,3 +277,43 @@ def _reg_from_term(v):
             if r:
                 return r
     return None
+
+
+def _wait_cancel(interp, node, args, kwargs, cfg, out):
+    out.add("raise", cfg.set("$exc", ExcV("CancelledError", "wait to be cancelled")))
+    return []
+
+
+def cancel_table(ctx, program, rid):
+    """user_task_cancel interpreted on every small registry model."""
+    uid = "function.py::Function.user_task_cancel"
+    fn = program.func(uid)
+    for target in (None, "T_x"):
+        for started in (True, False):
+            for has_cb in (True, False):
+                t = target or "T_cur"
+                heap = {"Function.our_tasks": ListV(tuple(Const(x) for x in ([t] if started else []) + ["T_other"]), "set"),
+                        "Function.task2cb": DictV([(Const(x), DictV([])) for x in ([t] if has_cb else [])]),
+                        "Function.task2context": DictV([]), "Function.unique_task2name": DictV([])}
+                pol = FlowPolicy(program, events=["cls.reaper_cancel"], may_raise_all=False, cancel=False,
+                                 summaries={"asyncio.current_task": lambda i, n, a, k, c, o: [(c, Const("T_cur"))], "asyncio.sleep": _wait_cancel})
+                out = run_flow(program, uid, pol, args={"cls": ClassV("Function"), "task": Const(target)}, heap=heap)
+                label = f"{'the caller itself' if target is None else 'another task'}, {'started' if started else 'not started yet'}, {'has' if has_cb else 'no'} done-callback entry"
+                bad = None
+                paths = exits(out)
+                for kind, c, desc in paths:
+                    cancelled = [e[2][0].v if e[2] and isinstance(e[2][0], Const) else repr(e[2]) for e in c.trace if e[0] == "call" and e[1] == "cls.reaper_cancel"]
+                    exc = getattr(c.env.get("$exc"), "cls", None) if kind == "raise" else None
+                    if started:
+                        if cancelled != [t]:
+                            bad = f"hands {cancelled} to the reaper, specified [{t}]"
+                        elif target is None and exc != "CancelledError":
+                            bad = f"the caller continues after cancelling itself ({desc})"
+                        elif target is not None and kind != "return":
+                            bad = f"leaves with {desc}"
+                    else:
+                        if cancelled:
+                            bad = f"hands {cancelled} to the reaper although the task is not in our_tasks: cancelled before its first step it never reaches run_coro's cleanup (callbacks never run, task2cb entry leaks)"
+                        elif exc != "TypeError":
+                            bad = f"does not refuse with TypeError ({desc})"
+                ctx.check(bool(paths) and bad is None, rid, uid, f"task.cancel: {label}", msg=f"task.cancel of {label}: {bad or 'no exit'}", key=f"cancel {label}", node=fn, rel="function.py")
